@@ -43,6 +43,7 @@ Rules applied to extracted text (recorded in evidence as coverage.extraction.dro
     prelude's `opaque_async_block()` (Verus has no generator types): the future built there is a value the function only
     stores; what it does when polled is NOT verified and is listed as dropped text
  17 (opt-in, `for_each_to_for it=NAME`) the statement `E.into_iter().for_each(|P| B);` becomes `for P in NAME: E B`
+    (`E.iter().for_each(..)` likewise, with `E.iter()` as the iterated expression)
     (`Iterator::for_each` IS that loop; Verus has no closures that capture `&mut`)
  10e (opt-in, `pin_alias NAME=self.F`) pin_project plumbing of a wrapper around a pinned field: `let mut NAME = self.project().F;`
     deleted and NAME written out as `self.F`; `path::m(self.F.as_mut(), args)` -> `self.F.m(args)`;
@@ -592,7 +593,7 @@ def build(template_path, repo, out_path, drop_tags=()):
                 T = [t.t for t in ltoks]
                 hits = []
                 for k in range(bol + 1, bcl - 8):
-                    if T[k] == "." and T[k + 1] == "into_iter" and T[k + 2] == "(" and T[k + 3] == ")" and T[k + 4] == "." \
+                    if T[k] == "." and T[k + 1] in ("into_iter", "iter") and T[k + 2] == "(" and T[k + 3] == ")" and T[k + 4] == "." \
                             and T[k + 5] == "for_each" and T[k + 6] == "(" and T[k + 7] == "|":
                         hits.append(k)
                 if len(hits) != 1:
@@ -626,7 +627,7 @@ def build(template_path, repo, out_path, drop_tags=()):
                 bclose = rslex.match_close(ltoks, q + 1)
                 if not (T[bclose + 1] == ")" and T[bclose + 2] == ";"):
                     raise ExtractError("rule 17: `for_each(..)` is not a statement")
-                recv = text[ltoks[e0].s:ltoks[k - 1].e]
+                recv = text[ltoks[e0].s:ltoks[k - 1].e] + (".iter()" if T[k + 1] == "iter" else "")
                 pat = text[ltoks[p0].s:ltoks[q - 1].e]
                 edits.append((ltoks[e0].s, ltoks[q].e, f"for {pat} in {foreach_it}: {recv} \n" + "\n".join(foreach_inv) + "\n"))
                 edits.append((ltoks[bclose + 1].s, ltoks[bclose + 2].e, ""))
